@@ -17,7 +17,6 @@ import tempfile
 VERIF = os.path.dirname(os.path.dirname(os.path.abspath(__file__)))     # the tree this script lives in (a builder worktree evaluates itself)
 
 prop, d, k = sys.argv[1], sys.argv[2], sys.argv[3]
-VERIF = os.path.dirname(os.path.dirname(os.path.abspath(__file__)))   # the framework tree this script belongs to (a worktree of it, too)
 checks = [prop]
 tier = "quick"
 for a in sys.argv[4:]:
